@@ -209,6 +209,18 @@ def run(ctx):
             olds = {l for _, l in old_reads}
             if any(_depends_on_local(an, blk.term.discr, l) for l in olds) or 'avail' in kinds:
                 ok = True
+        # R07.6: unless the loop is governed by the delta (R07.5), its condition must be exactly `size > max_size`
+        # (the documented behaviour whose residue is known finding D1); any other condition is a new violation
+        if not ok:
+            rels = []
+            for blk in loop_sw:
+                for lab, tgt in blk.term.switch_arms():
+                    if f.idx in an.reach([tgt], ('normal',), avoid=[blk.idx]):
+                        rel = cmp_relation(an, r, blk, lab)
+                        rels.append(rel[0] if rel else 'other(%s)' % sorted({x[1] for x in sources(an, blk.term.discr) if x[0] in ('field', 'call')}))
+            # only comparisons count (the try_acquire Ok test is a Result switch, not a bool switch)
+            ctx.ob('R07.6', 'the shrink releases objects / permits exactly while size > max_size', rels == ['size>max'], ctx.where(z, f.term.line),
+                   'the shrink loop is governed by %s instead of `size > max_size`' % rels if rels != ['size>max'] else '', construct='resize:shrink-loop-condition', sites=rels)
         ctx.ob('R07.5', 'number of permits removed by a shrink is governed by old - new', ok, ctx.where(z, f.term.line),
                'the shrink loop is governed only by %s: free capacity that is not backed by an object is never removed, and a later grow re-adds permits that were never removed' % desc
                if not ok else '', construct='resize:shrink-capacity-ledger', sites=[ctx.where(z, x.term.line) for x in loop_sw])
